@@ -115,16 +115,16 @@ Inductive complaint :=
 | COverlap (i j : N)
 | CSegAddr (h : N) (sec : N).
 
+Fixpoint overlap_inner (a : section) (i j : N) (l : list section) : list complaint :=
+  match l with
+  | [] => []
+  | b :: t => (if sections_overlap_reported a b then [COverlap i j] else []) ++ overlap_inner a i (j + 1) t
+  end.
+
 Fixpoint overlap_pairs (i : N) (secs : list section) : list complaint :=
   match secs with
   | [] => []
-  | a :: rest =>
-      (fix inner (j : N) (l : list section) : list complaint :=
-         match l with
-         | [] => []
-         | b :: t => (if sections_overlap_reported a b then [COverlap i j] else []) ++ inner (j + 1) t
-         end) (i + 1) rest
-      ++ overlap_pairs (i + 1) rest
+  | a :: rest => overlap_inner a i (i + 1) rest ++ overlap_pairs (i + 1) rest
   end.
 
 Fixpoint find_prog_section (secs : list section) (offset : N) : option section :=
